@@ -16,7 +16,10 @@ CHECKS = {
         'Round proofs: a thread-level semantics of ONE middleware value serving any number of messages - after any schedule every message is where its solo run would be '
         '(any interleaving = N independent runs; the shared-error-variable variant is refuted by a 2-message schedule); PoisonQueue(Retry(h)) composed with the C12 model - poisoned '
         'exactly when all attempts failed and the filter accepts the LAST error, which is the reason - tied by 800 cases with the real Retry middleware; the no-filter path parks at '
-        'the add-only hook poison.default_filter.'),
+        'the add-only hook poison.default_filter. '
+        'Round proofs 3 (41 theorems): the concurrent semantics refines the atomic specification and is serializable; PoisonQueue(Retry(h)) in the Router forward (exhausted => poisoned exactly once with the '
+        'last error as reason and Acked; publish failure => Nacked, error kept); every acceptor has a model_accepted theorem; filter outcome table, PoisonQueue = WithFilter(accept all); key set of the '
+        'stamped metadata = old keys + the four, map stays well-formed; Router.addHandlerContext + all five router_context.go readers modelled, tied (16 Routers) and proved.'),
   note=('Trusted: Coq kernel + vm_compute; err.Error() as an oracle; errors.Is / pkg/errors.Cause / multierror.Append as modelled on four error shapes; panics of nil-map writes and '
         'nil interface / nil func calls; defer + named results; the scripted collaborators, string interning (the four keys as literals), projection of returned errors to trees, '
         'attribution of collaborator calls by goroutine id; the message hook stamps that observe the Router\'s settle calls. Identity of the published message (the consumed object itself) is compared '
